@@ -9,7 +9,7 @@ for d in sorted(os.listdir(os.path.join(V, "seeded"))):
         m = json.load(open(os.path.join(V, "seeded", d, "meta.json")))
         prev.append(f"({d[-2:]}) {m.get('summary', '')[:300]}")
 avoid = " ; ".join(prev)
-out = subprocess.run([sys.executable, os.path.join(V, "tools", "agent_prompt.py"), pid, "2", "c", avoid], capture_output=True, text=True).stdout
+out = subprocess.run([sys.executable, os.path.join(V, "tools", "agent_prompt.py"), pid, "2", sys.argv[2] if len(sys.argv) > 2 else "c", avoid], capture_output=True, text=True).stdout
 extra = ("\nADDITIONAL REQUEST FOR THIS ROUND: the earlier rounds are listed above; look for parts of the property's statement and anchored "
          "functions they did NOT touch. Change 1: a bug in a code path that only a non-default option, an unusual shape/size, a second call on "
          "the same object, or a less-used sibling implementation reaches. Change 2: either two cooperating edits at different sites that each "
